@@ -7,6 +7,10 @@ mod c14;
 mod c15;
 mod c16;
 #[allow(dead_code)]
+mod model;
+#[allow(dead_code)]
+mod run;
+#[allow(dead_code)]
 mod sut;
 
 fn main() {
